@@ -15,6 +15,8 @@ Expressions are nested tuples:
   ("multi", local)                  local with several definitions (loop carried / flag)
   ("unknown",)
 """
+import sys
+sys.setrecursionlimit(20000)
 from collections import defaultdict, deque
 
 from lib_facts import fn_name, place_str
@@ -71,8 +73,10 @@ class Flow:
         key = ("L", local)
         if key in self._memo:
             return self._memo[key]
-        if depth > 60:
+        if depth > 400:
+            self._cuts = getattr(self, "_cuts", 0) + 1
             return ("unknown",)
+        cuts0 = getattr(self, "_cuts", 0)
         self._memo[key] = ("multi", local)  # cycle guard
         sd = self.single_def(local)
         if sd == "param":
@@ -87,6 +91,9 @@ class Flow:
                 e = self.call_expr(node, bb, depth + 1)
             else:
                 e = ("multi", local)
+        if getattr(self, "_cuts", 0) != cuts0:
+            del self._memo[key]       # depth-limited result: valid for this query only, never cached
+            return e
         self._memo[key] = e
         return e
 
@@ -250,6 +257,35 @@ class Flow:
         if kind == "assign" and node["rv"]["k"] == "discr":
             return node["rv"]["place"], node["rv"]["variants"]
         return None
+
+    def alias_places(self, place, _depth=0):
+        """Place JSONs denoting the same value as `place` through single-definition copies / moves / (re)borrows:
+        `_n = move (_4 as Ready).0` makes `_n` an alias of `(_4 as Ready).0`; `_x = &_3` makes `(*_x)` an alias of `_3`.
+        Returns a list starting with `place` itself."""
+        out = [place]
+        if _depth > 6:
+            return out
+        sd = self.single_def(place["l"])
+        if sd in (None, "param") or sd[2] != "assign":
+            return out
+        rv = sd[3]["rv"]
+        proj = place["p"]
+        src = None
+        if rv["k"] == "use" and rv["op"]["k"] in ("copy", "move"):
+            src = {"l": rv["op"]["place"]["l"], "p": rv["op"]["place"]["p"] + proj, "ty": place["ty"]}
+        elif rv["k"] in ("ref", "rawptr") and proj and proj[0]["k"] == "deref":
+            src = {"l": rv["place"]["l"], "p": rv["place"]["p"] + proj[1:], "ty": place["ty"]}
+        if src is not None:
+            out.extend(self.alias_places(src, _depth + 1))
+        return out
+
+    def alias_strs(self, place):
+        seen = []
+        for p in self.alias_places(place):
+            s = place_str(p)
+            if s not in seen:
+                seen.append(s)
+        return seen
 
     def variant_edges(self):
         """All (from_bb, to_bb, label) with discriminant labels in the body."""
@@ -640,7 +676,8 @@ def variant_facts(body, flow):
                 f2 = set(facts)
                 for lab in labs.get(s, []):
                     if lab[0] == "variant" and lab[2] is not None:
-                        f2.add((place_str(lab[3]), lab[2]))
+                        for ps_ in flow.alias_strs(lab[3]):
+                            f2.add((ps_, lab[2]))
                 # an edge reached under two different labels (same target) gives no fact
                 if len([l for l in labs.get(s, []) if l[0] in ("variant", "notvariants")]) > 1:
                     f2 = set(facts)
@@ -861,13 +898,18 @@ def flag_search(body, flow, start, stop=(), init=None, max_states=200000):
                 feasible = False
                 vk2 = dict(vk)
                 for lab in labs:
-                    p = place_str(lab[3])
-                    known = vk.get(p)
+                    als = flow.alias_strs(lab[3])
+                    known = None
+                    for p in als:
+                        if vk.get(p) is not None:
+                            known = vk.get(p)
+                            break
                     if lab[0] == "variant":
                         if known is None or known == lab[2]:
                             feasible = True
                             if len(labs) == 1 and lab[2] is not None:
-                                vk2[p] = lab[2]
+                                for p in als:
+                                    vk2[p] = lab[2]
                     else:
                         if known is None or known not in lab[2]:
                             feasible = True
@@ -959,13 +1001,18 @@ def sensitive_paths(body, flow, loop_visits=2, max_paths=200000, start=0):
                 feasible = not labs
                 vk2 = dict(vk)
                 for lab in labs:
-                    p = place_str(lab[3])
-                    known = vk.get(p)
+                    als = flow.alias_strs(lab[3])
+                    known = None
+                    for p in als:
+                        if vk.get(p) is not None:
+                            known = vk.get(p)
+                            break
                     if lab[0] == "variant":
                         if known is None or known == lab[2]:
                             feasible = True
                             if len(labs) == 1 and lab[2] is not None:
-                                vk2[p] = lab[2]
+                                for p in als:
+                                    vk2[p] = lab[2]
                     else:
                         if known is None or known not in lab[2]:
                             feasible = True
@@ -1061,5 +1108,64 @@ def loop_exit_edges(body, flow, next_bb):
                 continue
             labs = flow.edge_labels(a).get(b, [])
             is_none = any(l[0] == "variant" and place_str(l[3]) == dest and l[2] == "None" for l in labs)
+            if not is_none:
+                # `iter.next()?`: the Break edge of Try::branch applied to this very next() result
+                for l in labs:
+                    if l[0] == "variant" and l[2] == "Break" and l[1][0] == "call" and (l[1][1] or "").endswith("::branch") \
+                            and l[1][2] and l[1][2][0][0] == "call" and l[1][2][0][3] == next_bb:
+                        is_none = True
             res.append((a, b, is_none))
     return res
+
+
+def path_bool_labels(body, flow, path):
+    """[(expr, bool)] for the boolean switch edges taken along `path`."""
+    out = []
+    for i in range(len(path) - 1):
+        labs = flow.edge_labels(path[i]).get(path[i + 1], [])
+        for lab in labs:
+            if lab[0] == "bool":
+                out.append((lab[1], lab[2]))
+    return out
+
+
+def arrival_knowledge(body, flow, target_bb, loop_visits=2):
+    """Variant knowledge (place_str -> variant) at entry of `target_bb` on every flag/variant-feasible path that
+    reaches it (deduplicated)."""
+    out = []
+    seen = set()
+    for kind, path, know in sensitive_paths(body, flow, loop_visits):
+        for i, bb in enumerate(path):
+            if bb == target_bb:
+                key = tuple(sorted(know[i].items()))
+                if key not in seen:
+                    seen.add(key)
+                    out.append(know[i])
+    return out
+
+
+def expr_shape(e, depth=0):
+    """Structural rendering of an expression that ignores where its calls sit in the CFG (two evaluations of the same
+    pure computation -- e.g. an inlined offset helper -- have the same shape)."""
+    if depth > 300:
+        return "..."
+    k = e[0]
+    if k == "call":
+        return "%s(%s)" % (e[1], ",".join(expr_shape(a, depth + 1) for a in e[2]))
+    if k == "icall":
+        return "(%s)(%s)" % (expr_shape(e[1], depth + 1), ",".join(expr_shape(a, depth + 1) for a in e[2]))
+    if k == "proj":
+        return "%s%s" % (expr_shape(e[1], depth + 1), "".join(e[2]))
+    if k == "ref":
+        return "&" + expr_shape(e[1], depth + 1)
+    if k == "binop":
+        return "%s(%s,%s)" % (e[1], expr_shape(e[2], depth + 1), expr_shape(e[3], depth + 1))
+    if k in ("unop",):
+        return "%s(%s)" % (e[1], expr_shape(e[2], depth + 1))
+    if k == "cast":
+        return "cast(%s)" % expr_shape(e[2], depth + 1)
+    if k == "agg":
+        return "%s{%s}" % (e[1], ",".join(expr_shape(a, depth + 1) for a in e[2]))
+    if k == "discr":
+        return "discr(%s)" % expr_shape(e[1], depth + 1)
+    return repr(e)
